@@ -236,6 +236,20 @@ fn run_and_judge(r: &mut Report, id: &str, sc: &Scenario, idx: usize, schema: &A
     } else {
         r.case_enumerated(true);
     }
+    // self-check of the fault injection: every scheduled kind is expected to fire somewhere (see the end of `run`)
+    let kind_name = |k: &FaultKind| -> String { format!("{k:?}").split('(').next().unwrap_or("?").to_string() };
+    for f in &sc.plan.faults {
+        r.count(&format!("scheduled.{}", kind_name(&f.kind)), 1);
+    }
+    for e in &tr.log {
+        match &e.dir {
+            Dir::Fault(k) => r.count(&format!("fired.{}", kind_name(k)), 1),
+            Dir::ConnectRefused => r.count("fired.Refuse", 1),
+            Dir::ConnectStalled => r.count("fired.ConnectStall", 1),
+            Dir::Note(n) if n.starts_with("pause") => r.count("fired.Pause", 1),
+            _ => {}
+        }
+    }
     r.count("connections_opened", tr.log.iter().filter(|e| e.dir == Dir::Open).count() as u64);
     r.count("virtual_seconds", tr.calls.iter().map(|c| c.virtual_ms).sum::<u64>() / 1000);
     let case = || {
@@ -733,6 +747,13 @@ pub fn run(ctx: &Ctx, id: &str) -> i32 {
             }
         }
     });
+    // a fault kind that was scheduled in many runs but never once fired means the injection itself is broken
+    let scheduled: Vec<(String, u64)> = report.counters.iter().filter(|(k, _)| k.starts_with("scheduled.")).map(|(k, v)| (k["scheduled.".len()..].to_string(), *v)).collect();
+    for (kind, n) in scheduled {
+        if n >= 20 && report.counters.get(&format!("fired.{kind}")).copied().unwrap_or(0) == 0 {
+            report.inconclusive(&format!("fault kind {kind} was scheduled in {n} runs but never fired: the fault injection is not effective"));
+        }
+    }
     // summarise the per-shard notes
     for k in ["virtual_seconds_of_a_one_shot_stall", "virtual_seconds_of_a_persistent_stall"] {
         if let Some(s) = report.sets.remove(k) {
